@@ -693,6 +693,192 @@ def _min_trips():
     return 200
 
 
+# ============================================================================================
+#  frame(N) / frame(N, up): orthonormal right-handed frame around a unit normal, by vector-algebra facts
+# ============================================================================================
+def _vterm(tu, e, env, depth=0):
+    """symbolic vector term: ('p', param-index) | ('e', axis) | ('cross', a, b) | ('norm', a) | ('neg', a) | ('sel', cond, a, b)"""
+    e = tu.strip(e)
+    if e is None or depth > 25:
+        raise _NoForm('?')
+    k = e.get('kind')
+    if k == 'DeclRefExpr':
+        d = e['referencedDecl'].get('id')
+        if d in env:
+            return env[d]
+        raise _NoForm('value of `%s` not tracked' % e['referencedDecl'].get('name'))
+    if k == 'ConditionalOperator':
+        c, a, b = tu.kids(e)
+        return ('sel', c, _vterm(tu, a, env, depth + 1), _vterm(tu, b, env, depth + 1))
+    if k in ('CXXConstructExpr', 'CXXTemporaryObjectExpr', 'CXXFunctionalCastExpr'):
+        ks = tu.kids(e)
+        if len(ks) == 1:
+            return _vterm(tu, ks[0], env, depth + 1)
+        if len(ks) == 3:
+            comps = []
+            for x in ks:
+                names = [y.get('referencedDecl', {}).get('name') for y in tu.walk(x) if y.get('kind') == 'DeclRefExpr']
+                c = _scalar_const(tu, x)
+                comps.append(1 if 'one' in names or c == 1.0 else 0 if 'zero' in names or c == 0.0 else None)
+            if None not in comps and sorted(comps) == [0, 0, 1]:
+                return ('e', comps.index(1))
+        raise _NoForm(tu.show(e))
+    if k in ('CallExpr', 'CXXOperatorCallExpr'):
+        sd, obj, args = tu.call_parts(e)
+        name = sd.get('q', '').split('::')[-1]
+        if name == 'cross' and len(args) == 2:
+            return ('cross', _vterm(tu, args[0], env, depth + 1), _vterm(tu, args[1], env, depth + 1))
+        if name in ('normalize',) and len(args) == 1:
+            return ('norm', _vterm(tu, args[0], env, depth + 1))
+        if name == 'operator-' and len(args) == 1:
+            return ('neg', _vterm(tu, args[0], env, depth + 1))
+        h = _single_return(tu, e)
+        if h is not None and obj is None:
+            fn, ret = h
+            env2 = {}
+            for pp, a in zip(fn['params'], args):
+                try:
+                    env2[pp['id']] = _vterm(tu, a, env, depth + 1)
+                except _NoForm:
+                    pass
+            return _vterm(tu, ret, env2, depth + 1)
+    raise _NoForm(tu.show(e))
+
+
+def _perp(t, n):
+    """t is orthogonal to n for every value of the inputs"""
+    if t[0] == 'cross':
+        return t[1] == n or t[2] == n
+    if t[0] in ('norm', 'neg'):
+        return _perp(t[1], n)
+    if t[0] == 'sel':
+        return _perp(t[2], n) and _perp(t[3], n)
+    return False
+
+
+def _is_unit(t):
+    return t[0] == 'norm' or (t[0] == 'neg' and _is_unit(t[1])) or (t[0] == 'sel' and _is_unit(t[2]) and _is_unit(t[3]))
+
+
+def check_frame(ctx, tu):
+    """frame(N): returned axes (X, Y, N) with X a normalised vector orthogonal to N (a cross product with N, possibly a selection between
+    two), chosen so that it cannot vanish (the longer of cross(e_i, N), cross(e_j, N), i != j: the squared lengths add up to >= 1), and
+    Y = [normalize] cross(N, X): then X, Y, N are orthonormal and det = +1.  frame(N, up) either delegates to frame(N) or has the same form."""
+    R = 'R-C06-frame'
+    ctx.describe(R, 'frame(): third axis is N, first axis is a normalised vector orthogonal to N that cannot vanish, second axis is cross(N, first) '
+                    '(orthonormal, right-handed)')
+    n = 0
+    for f in sorted(tu.functions.values(), key=lambda x: x['fty']):
+        if f['dep'] or f['q'] != 'rkcommon::math::frame' or tu.body(f) is None:
+            continue
+        n += 1
+        inst = 'frame %s' % f['fty'].replace('rkcommon::math::', '')
+        key = '%s|rkcommon/math/LinearSpace.h|frame/%d|' % (R, len(f['params']))
+        env = {p['id']: ('p', i) for i, p in enumerate(f['params'])}
+        N = ('p', 0)
+        body = tu.body(f)
+        und = None
+        for v in tu.walk(body):
+            if v.get('kind') == 'VarDecl' and tu.kids(v) and v['id'] not in env:
+                try:
+                    env[v['id']] = _vterm(tu, tu.kids(v)[-1], env)
+                except _NoForm:
+                    pass
+        rets = [x for x in tu.walk(body) if x.get('kind') == 'ReturnStmt']
+        bad = False
+        for r in rets:
+            e = tu.strip(tu.kids(r)[0]) if tu.kids(r) else None
+            while e is not None and e.get('kind') in ('CXXConstructExpr', 'CXXTemporaryObjectExpr', 'CXXFunctionalCastExpr') and len(tu.kids(e)) == 1:
+                e = tu.strip(tu.kids(e)[0])
+            if e is None:
+                und = 'return without a value'
+                break
+            if e.get('kind') == 'CallExpr' and tu.sd(e).get('q') == 'rkcommon::math::frame':
+                args = tu.call_parts(e)[2]
+                try:
+                    if len(args) == 1 and _vterm(tu, args[0], env) == N:
+                        ctx.ok(R, inst + ' @' + tu.loc(r), 'delegates to frame(N)', tu.loc(r), nontrivial=False)
+                        continue
+                except _NoForm:
+                    pass
+                und = 'delegation `%s` not to frame(N)' % tu.show(e)
+                break
+            if e.get('kind') not in ('CXXConstructExpr', 'CXXTemporaryObjectExpr') or len(tu.kids(e)) != 3:
+                und = 'returned value `%s` is not LinearSpace3(x, y, z)' % tu.show(e)[:80]
+                break
+            try:
+                X, Y, Z = (_vterm(tu, a, env) for a in tu.kids(e))
+            except _NoForm as ex:
+                und = 'axis not in the vector-term fragment: %s' % str(ex)[:100]
+                break
+            if Z != N:
+                ctx.violation(R, inst, 'the third axis of the returned frame is not the normal N', tu.loc(r), key=key + 'third-axis')
+                bad = True
+                continue
+            if not _is_unit(X):
+                und = 'first axis is not a normalised vector'
+                break
+            if not _perp(X, N):
+                ctx.violation(R, inst, 'the first axis `%s` is not a cross product with N: it is not orthogonal to the normal' % tu.show(tu.kids(e)[0]),
+                              tu.loc(r), key=key + 'first-axis-not-orthogonal')
+                bad = True
+                continue
+            # non-vanishing: a bare cross(e_i, N) vanishes for N = e_i
+            core = X[1] if X[0] == 'norm' else X
+            if core[0] == 'sel':
+                c = tu.strip(core[1])
+                A, B = core[2], core[3]
+                okc = None
+                if c.get('kind') == 'BinaryOperator' and c.get('opcode') in ('>', '>=', '<', '<='):
+                    def sq(x):
+                        x = tu.strip(x)
+                        if x.get('kind') == 'CallExpr' and tu.sd(x).get('q', '').split('::')[-1] == 'dot' and len(tu.kids(x)) == 3:
+                            try:
+                                a, b = (_vterm(tu, y, env) for y in tu.kids(x)[1:])
+                                return a if a == b else None
+                            except _NoForm:
+                                return None
+                        return None
+                    l, r2 = (sq(x) for x in tu.kids(c))
+                    if c['opcode'] in ('<', '<='):
+                        l, r2 = r2, l
+                    if l is not None and r2 is not None:
+                        okc = (l == A and r2 == B)       # condition true <=> |l| larger; the true branch must be l
+                        rev = (l == B and r2 == A)
+                        axes = lambda t: t[0] == 'cross' and ((t[1][0] == 'e' and t[2] == N) or (t[2][0] == 'e' and t[1] == N))
+                        if not (axes(A) and axes(B)) or (A[1] if A[1][0] == 'e' else A[2]) == (B[1] if B[1][0] == 'e' else B[2]):
+                            okc = None if not rev else okc
+                            und = und or 'candidates of the selection are not cross products of N with two different coordinate axes'
+                        elif rev:
+                            ctx.violation(R, inst, 'the selection `%s` keeps the SHORTER of the two candidates: for N along a coordinate axis it '
+                                          'is the zero vector and normalize() of it is not a unit vector' % tu.show(c)[:120], tu.loc(r),
+                                          key=key + 'selects-shorter')
+                            bad = True
+                            continue
+                if okc is None and und is None:
+                    und = 'selection condition `%s` not recognised' % tu.show(c)[:100]
+                if und:
+                    break
+            elif core[0] == 'cross' and (core[1][0] == 'e' or core[2][0] == 'e'):
+                ctx.violation(R, inst, 'the first axis is cross(axis, N) for one fixed coordinate axis: it vanishes when N is parallel to that axis',
+                              tu.loc(r), key=key + 'degenerate')
+                bad = True
+                continue
+            Yc = Y[1] if Y[0] == 'norm' else Y
+            if Yc == ('cross', N, X):
+                ctx.ok(R, inst + ' @' + tu.loc(r), 'axes (x, cross(N, x), N) with x a non-vanishing normalised vector orthogonal to N', tu.loc(r))
+            elif Yc == ('cross', X, N):
+                ctx.violation(R, inst, 'the second axis is cross(x, N) instead of cross(N, x): the frame is left-handed (det = -1)', tu.loc(r),
+                              key=key + 'left-handed')
+                bad = True
+            else:
+                und = 'second axis `%s` is not cross(N, first axis)' % tu.show(tu.kids(e)[1])[:80]
+                break
+        if und and not bad:
+            ctx.undecided(R, inst, und, tu.fn_loc(f))
+    ctx.floor(R, n, 3, 'frame(N) for vec3f/vec3d/vec3fa and frame(N, up)')
+
+
 def run(ctx):
     R = 'R-C06'
     ctx.describe(R, 'lhs and rhs of the identity driver have the same exact rational-function normal form for every output '
@@ -782,6 +968,7 @@ def run(ctx):
     check_branch_conditioning(ctx, tu)
     check_slerp(ctx, tu)
     check_orthogonal(ctx, tu)
+    check_frame(ctx, tu)
     ctx.extra['ir_units'] = ir_units
     ctx.extra['programs'] = len(ir_units)
     ctx.extra['disagreements_checked'] = len(ctx.obl)
